@@ -205,6 +205,8 @@ def build(case):
         eta = 10.0 ** case["eta_exp"]
         M = M + eta * np.sqrt((M**2).mean()) * rng.standard_normal((n, p)) * (0.6 ** np.arange(p))[rng.permutation(p)]
     scale = 10.0 ** case["scale_exp"]
+    if case["dseed"] % 7 == 3:
+        scale *= 1e-9  # tiny physical units (mixing ratios in mol/mol): nothing in POP depends on the units
     if kind != "osc":
         M = M + 2.0 * np.sqrt((M**2).mean()) * rng.standard_normal(p)  # offset (removed by centring, kept otherwise)
     M = M * scale
